@@ -27,6 +27,7 @@ type Env struct {
 	Cfg       grog.Config
 	Memo      map[string]string // loose key -> "ok" | "lost"
 	Strict    map[string]bool   // strict keys that were stored once
+	DefSeen   map[string]bool   // loose key + spelling of the dependency list that was stored once
 	Taint     map[string]bool
 	Markers   map[string]bool
 	LastViews map[string][]spec.DepView // dependency outputs as of each target's last execution
@@ -55,7 +56,7 @@ func NewEnv(base, name, grogBin, vctlBin string, s *spec.Spec, cfg grog.Config) 
 			return nil, err
 		}
 	}
-	e := &Env{Dir: dir, WS: ws, Spec: s, Cfg: cfg, Memo: map[string]string{}, Strict: map[string]bool{},
+	e := &Env{Dir: dir, WS: ws, Spec: s, Cfg: cfg, Memo: map[string]string{}, Strict: map[string]bool{}, DefSeen: map[string]bool{},
 		Taint: map[string]bool{}, Markers: map[string]bool{}, LastViews: map[string][]spec.DepView{}, Pending: map[string][]string{}, Unsure: map[string]bool{}, prevFiles: map[string]string{}}
 	e.M = &grog.Machine{Bin: grogBin, Workspace: ws, Root: filepath.Join(dir, "root"), Home: filepath.Join(dir, "home"),
 		Trace: filepath.Join(dir, "trace"), Sidecar: filepath.Join(dir, "sidecar.json"), VctlBin: vctlBin}
